@@ -439,3 +439,148 @@ def c12(ctx):
 
 
 PY['c12'] = c12
+
+
+# --------------------------------------------------------------------------- C19
+FEATS = ['mass', 'length', 'duration', 'area', 'volume', 'speed', 'acceleration', 'force', 'energy', 'power',
+         'frequency', 'datavolume', 'datathroughput', 'temperature']
+
+
+def parse_cargo_features(repo):
+    import re
+    txt = open(os.path.join(repo, 'Cargo.toml'), encoding='utf-8').read()
+    m = re.search(r'^\[features\]\s*$(.*?)(?=^\[)', txt, re.M | re.S)
+    body = m.group(1) if m else ''
+    feats = {}
+    for fm in re.finditer(r'^([A-Za-z0-9_-]+)\s*=\s*\[(.*?)\]', body, re.M | re.S):
+        feats[fm.group(1)] = re.findall(r'"([^"]+)"', fm.group(2))
+    return feats
+
+
+def parse_module_uses(repo):
+    """which other quantity modules a module's source refers to (use crate::x, crate::x::, #[quantity(A op B)] operands)"""
+    import re
+    decl = json.load(open(os.path.join(os.path.dirname(os.path.dirname(os.path.abspath(__file__))), 'spec', 'catalogue.json'), encoding='utf-8'))
+    uses = {}
+    for f in FEATS:
+        p = os.path.join(repo, 'src', f + '.rs')
+        if not os.path.exists(p):
+            uses[f] = ['<missing module>']
+            continue
+        src = open(p, encoding='utf-8').read()
+        # cut the unit-test module: its imports are not part of the library configuration
+        cut = src.find('#[cfg(test)]')
+        lib = src if cut < 0 else src[:cut]
+        mods = set(re.findall(r'crate::\{?\s*([a-z_]+)::', lib)) | set(re.findall(r'crate::([a-z_]+)::', lib))
+        for g in re.findall(r'use\s+crate::\{(.*?)\};', lib, re.S):
+            mods |= set(re.findall(r'([a-z_]+)::', g))
+        uses[f] = sorted(m for m in mods if m in FEATS and m != f)
+    return uses
+
+
+def c19(ctx):
+    repo = ctx['repo']
+    declared = qv.load_declared(os.path.join(ctx['spec'], 'catalogue.json'))
+    dt = {t['T']: t for t in declared['types']}
+    byfeat = {t['feature']: t for t in declared['types'] if t.get('feature')}
+    evs = []
+    feats = parse_cargo_features(repo)
+    uses = parse_module_uses(repo)
+    evs.append({'kind': 'static', 'requires': [{'f': f, 'deps': deps} for f, deps in sorted(feats.items())],
+                'uses': [{'f': f, 'deps': d} for f, d in sorted(uses.items())]})
+
+    def probe_src(fs, be, std, serde):
+        L = ['#![allow(unused, dead_code)]']
+        if not std:
+            L.append('#![no_std]')
+        L.append('use quantities::prelude::*;')
+        for f in fs:
+            t = byfeat[f]
+            path = t['path']
+            name = t['T']
+            ru = next(u for u in t['units'] if (u.get('def') or {}).get('ref')) if not t.get('noref') else t['units'][0]
+            L.append('pub fn use_%s(a: AmountT) -> %s::%s { a * %s::%s }' % (f, path, name, path, qv.const_of(ru['w'])))
+            dv = t.get('derive')
+            if dv:
+                lt = 'AmountT' if dv['l'] == 'Amount' else '%s::%s' % (dt[dv['l']]['path'], dv['l'])
+                rt = 'AmountT' if dv['r'] == 'Amount' else '%s::%s' % (dt[dv['r']]['path'], dv['r'])
+                L.append('pub fn derive_%s(x: %s, y: %s) -> %s::%s { x %s y }' % (f, lt, rt, path, name, dv['op']))
+            if serde:
+                L.append('pub fn ser_%s<S: serde::Serializer>(q: %s::%s, s: S) -> Result<S::Ok, S::Error> { serde::Serialize::serialize(&q, s) }' % (f, path, name))
+        return '\n'.join(L) + '\n'
+
+    def config_crate(d, fs, be, std, serde):
+        os.makedirs(os.path.join(d, 'src'), exist_ok=True)
+        fl = list(fs) + (['std'] if std else []) + (['fpdec'] if be == 'dec' else []) + (['serde'] if serde else [])
+        toml = ['[package]', 'name = "cfgprobe"', 'version = "0.0.0"', 'edition = "2021"', '', '[dependencies]',
+                'quantities = { path = "%s", default-features = false, features = [%s] }' % (repo, ', '.join('"%s"' % f for f in fl))]
+        if serde:
+            toml.append('serde = { version = "1", default-features = false }')
+        toml += ['', '[workspace]', '', '[profile.dev]', 'debug = false', 'incremental = false']
+        open(os.path.join(d, 'Cargo.toml'), 'w').write('\n'.join(toml) + '\n')
+        shutil.copy(os.path.join(repo, 'Cargo.lock'), os.path.join(d, 'Cargo.lock'))
+        open(os.path.join(d, 'src', 'lib.rs'), 'w').write(probe_src(fs, be, std, serde))
+
+    choices = [[f] for f in FEATS] + [list(FEATS), []]
+    combos = [(std, be, serde) for std in (True, False) for be in ('f64', 'dec') for serde in (False, True)]
+    if ctx['tier'] == 'quick':
+        # the 16 choices in the default configuration; all / none / two rotating singles in the other seven
+        rnd = random.Random(ctx['seed'])
+        plan = [(c, True, 'f64', False) for c in choices]
+        for (std, be, serde) in combos[1:]:
+            extra = rnd.sample(FEATS, 2)
+            plan += [(list(FEATS), std, be, serde), ([], std, be, serde)] + [([f], std, be, serde) for f in extra]
+    else:
+        plan = [(c, std, be, serde) for c in choices for (std, be, serde) in combos]
+    tdir_base = os.path.join(ctx['work'], 'target_c19')
+
+    def run_cfg(ip):
+        i, (fs, std, be, serde) = ip
+        d = os.path.join(ctx['rundir'], 'cfg_%03d' % i)
+        config_crate(d, fs, be, std, serde)
+        # four target directories so that four configurations can be checked concurrently
+        rc, diags, dep_failed, err = cp.cargo_check(d, '%s_%d' % (tdir_base, i % 4))
+        msg = ''
+        if rc != 0:
+            msg = (dep_failed[1] if dep_failed else (diags[0]['msg'] if diags else err))[:300]
+        shutil.rmtree(d, ignore_errors=True)
+        return {'kind': 'build', 'features': fs, 'std': std, 'be': be, 'serde': serde, 'verdict': 'ok' if rc == 0 else 'err', 'msg': msg}
+    from concurrent.futures import ThreadPoolExecutor
+    # configurations sharing a target directory must not run concurrently: one worker per directory
+    lanes = [[] for _ in range(4)]
+    for ip in enumerate(plan):
+        lanes[ip[0] % 4].append(ip)
+    with ThreadPoolExecutor(max_workers=4) as ex:
+        for res in ex.map(lambda lane: [run_cfg(ip) for ip in lane], lanes):
+            evs.extend(res)
+    # fixed operation corpus in a minimal and in the full configuration
+    for be in ('f64', 'dec'):
+        outs = []
+        for label, fs in (('minimal', ['mass', 'length', 'duration', 'temperature']), ('full', list(FEATS) + ['std'])):
+            d = os.path.join(ctx['rundir'], 'corpus_%s_%s' % (label, be))
+            os.makedirs(os.path.join(d, 'src'), exist_ok=True)
+            fl = fs + (['fpdec'] if be == 'dec' else [])   # minimal: no std, four quantities; full: std and all fourteen
+            toml = ['[package]', 'name = "corpus"', 'version = "0.0.0"', 'edition = "2021"', '', '[dependencies]',
+                    'quantities = { path = "%s", default-features = false, features = [%s] }' % (repo, ', '.join('"%s"' % f for f in fl)),
+                    '', '[workspace]', '', '[profile.dev]', 'debug = false', 'incremental = false']
+            open(os.path.join(d, 'Cargo.toml'), 'w').write('\n'.join(toml) + '\n')
+            shutil.copy(os.path.join(repo, 'Cargo.lock'), os.path.join(d, 'Cargo.lock'))
+            shutil.copy(os.path.join(ctx['root'], 'tools', 'corpus_main.rs'), os.path.join(d, 'src', 'main.rs'))
+            env = dict(os.environ)
+            env.update({'CARGO_NET_OFFLINE': 'true', 'CARGO_TARGET_DIR': tdir_base + '_corpus'})
+            p = subprocess.run(['cargo', 'run', '--offline', '-q'], cwd=d, env=env, stdout=subprocess.PIPE, stderr=subprocess.PIPE, text=True, errors='replace', timeout=900)
+            if p.returncode != 0:
+                evs.append({'kind': 'build', 'features': fs, 'std': True, 'be': be, 'serde': False, 'verdict': 'err', 'msg': 'corpus program: ' + p.stderr[-300:]})
+                outs.append(None)
+            else:
+                outs.append(p.stdout)
+            shutil.rmtree(d, ignore_errors=True)
+        if None not in outs:
+            evs.append({'kind': 'corpus', 'be': be, 'same': outs[0] == outs[1], 'n': len(outs[0].splitlines()),
+                        'first_difference': next((a for a, b in zip(outs[0].splitlines(), outs[1].splitlines()) if a != b), '')})
+    tp = os.path.join(ctx['rundir'], 'c19.ndjson')
+    write_trace(tp, {'ev': 'Header', 'be': 'f64', 'registry': 'cat', 'drv': 'c19', 'seed': ctx['seed'], 'tier': ctx['tier']}, evs, 'Config')
+    return [('c19', tp, empty_obs(ctx, 'f64'), ctx['declared_for']('cat'))]
+
+
+PY['c19'] = c19
